@@ -39,6 +39,7 @@ import (
 	"pgregory.net/rapid"
 	"verifsim/drv"
 	"verifsim/sim"
+	"verifsim/simrt"
 )
 
 func TestVerif(t *testing.T) {
@@ -251,7 +252,7 @@ func (c *acClient[RQ, RS]) Send(ctx context.Context, target address.Address, req
 		return res, errors.New("simnet: message lost")
 	}
 	if f.delay > 0 {
-		time.Sleep(f.delay)
+		time.Sleep(simrt.UniqueDur(f.delay))
 	}
 	dstEpoch, srcEpoch := c.net.epochOf(c.net.idOf[target]), c.net.epochOf(c.net.idOf[c.src])
 	if f.dup {
@@ -634,7 +635,7 @@ func runACBody(t *testing.T, c acCase, st *drv.Stats, prop string, failp **drv.F
 			}
 			peers = append(peers, nd.addr)
 		}
-		time.Sleep(500 * time.Millisecond)
+		time.Sleep(simrt.UniqueDur(500 * time.Millisecond))
 		net.mu.Lock()
 		net.enabled = true
 		net.mu.Unlock()
@@ -713,7 +714,7 @@ func runACBody(t *testing.T, c acCase, st *drv.Stats, prop string, failp **drv.F
 							knows = true
 							break
 						}
-						time.Sleep(100 * time.Millisecond)
+						time.Sleep(simrt.UniqueDur(100 * time.Millisecond))
 					}
 					if !knows {
 						st.Probe("write_skipped_key_unknown_at_gateway")
@@ -828,7 +829,7 @@ func runACBody(t *testing.T, c acCase, st *drv.Stats, prop string, failp **drv.F
 				}
 				st.Probe("burst_of_writes")
 			case "sleep":
-				time.Sleep(time.Duration(ev.MS) * time.Millisecond)
+				time.Sleep(simrt.UniqueDur(time.Duration(ev.MS) * time.Millisecond))
 			case "part":
 				net.mu.Lock()
 				net.blocked[[2]string{string(net.addrOf[ev.A]), string(net.addrOf[ev.B])}] = true
@@ -858,7 +859,7 @@ func runACBody(t *testing.T, c acCase, st *drv.Stats, prop string, failp **drv.F
 				}
 				nd.db = nil
 				settle()
-				time.Sleep(time.Duration(c.GossipMS) * time.Millisecond)
+				time.Sleep(simrt.UniqueDur(time.Duration(c.GossipMS) * time.Millisecond))
 				if err := openNode(nd, false); err != nil {
 					// under faults the rejoin may fail to reach anyone: retried at the end
 					st.Probe("restart_open_failed_under_faults")
@@ -920,7 +921,7 @@ func runACBody(t *testing.T, c acCase, st *drv.Stats, prop string, failp **drv.F
 		var why string
 		ok := false
 		for time.Now().Before(deadline) {
-			time.Sleep(100 * time.Millisecond)
+			time.Sleep(simrt.UniqueDur(100 * time.Millisecond))
 			if ok, why = converged(); ok {
 				break
 			}
@@ -1046,7 +1047,7 @@ func runACBody(t *testing.T, c acCase, st *drv.Stats, prop string, failp **drv.F
 			// subscriber that keeps up, whatever a stalled co-subscriber does, and the
 			// filtered stream is exactly the unfiltered one minus the changes led by the
 			// host
-			time.Sleep(200 * time.Millisecond)
+			time.Sleep(simrt.UniqueDur(200 * time.Millisecond))
 			for _, nd := range nodes[1:] {
 				if nd.restarted {
 					continue
